@@ -243,6 +243,56 @@ GENERATORS = [_neutrality]
 
 def native_replay(ctx, o):
     """A supplied CX coefficient list must reach the balance solver: compare the *_point helper with the direct solver call."""
+    if '[forwarding]' in o.name:
+        # every re-packaging entry point against the entry point it wraps, same arguments, atomic data whose thermal-CX rates depend on the
+        # charge of the donor (He0 fast, He+ slow), donor charges 0 and 1
+        from replaylib.native import run_native
+        code = '''
+import numpy as np
+from cherab.core import AtomicData
+from cherab.core.atomic import hydrogen, helium, carbon
+from cherab.tools.plasmas import ionisation_balance as ib
+from cherab.tools.equilibrium import example_equilibrium
+class R:
+    def __init__(self, a, th): self.a, self.th = a, th
+    def __call__(self, n_e, t_e): return self.a * np.exp(-self.th / t_e) * (1 + 1e-21 * n_e)
+class Data(AtomicData):
+    # thermal-CX rates depend on the CHARGE of the donor (He0 fast, He+ slow)
+    def ionisation_rate(self, ion, charge): return R(1e-14 / (charge + 1), 13.6 * (charge + 1) ** 2 / ion.atomic_number ** 0.5)
+    def recombination_rate(self, ion, charge): return R(2e-19 * charge ** 2, -5.0 * charge)
+    def thermal_cx_rate(self, donor, donor_charge, receiver, charge): return R(3e-14 * charge / (1 + 40 * donor_charge), 1.0)
+data = Data(); eq = example_equilibrium()
+x = np.linspace(0, 1, 6)
+ne = 5e19 * (1 - 0.8 * x ** 2); te = 400.0 * (1 - x ** 2) ** 2 + 10.0; donor = 3e17 * np.ones_like(x)
+n_he = ib.from_elementdensity(data, helium, 2e18 * np.ones_like(ne), ne, te)
+bad = []; cases = 0
+ax = eq.magnetic_axis
+def close(a, b, rt): return np.allclose(a, b, rtol=rt, atol=0)
+for dq in (0, 1):
+    base = {"fractional": ib.fractional_abundance(data, carbon, ne, te, helium, donor, dq),
+            "from_elementdensity": ib.from_elementdensity(data, carbon, 6e17 * np.ones_like(ne), ne, te, helium, donor, dq),
+            "match_plasma_neutrality": ib.match_plasma_neutrality(data, carbon, [n_he], ne, te, helium, donor, dq)}
+    wr = {"interpolators1d_fractional": ("fractional", lambda: ib.interpolators1d_fractional(data, carbon, x, ne, te, helium, donor, dq)),
+          "interpolators1d_from_elementdensity": ("from_elementdensity", lambda: ib.interpolators1d_from_elementdensity(data, carbon, x, 6e17 * np.ones_like(ne), ne, te, helium, donor, dq)),
+          "interpolators1d_match_plasma_neutrality": ("match_plasma_neutrality", lambda: ib.interpolators1d_match_plasma_neutrality(data, carbon, x, [n_he], ne, te, helium, donor, dq)),
+          "equilibrium_map3d_fractional": ("fractional", lambda: ib.equilibrium_map3d_fractional(data, carbon, eq, x, ne, te, helium, donor, dq)),
+          "equilibrium_map3d_from_elementdensity": ("from_elementdensity", lambda: ib.equilibrium_map3d_from_elementdensity(data, carbon, eq, x, 6e17 * np.ones_like(ne), ne, te, helium, donor, dq)),
+          "equilibrium_map3d_match_plasma_neutrality": ("match_plasma_neutrality", lambda: ib.equilibrium_map3d_match_plasma_neutrality(data, carbon, eq, x, [n_he], ne, te, helium, donor, dq))}
+    for name, (b, f) in wr.items():
+        cases += 1
+        try:
+            got = f()
+            vals = [got[q](ax.x, 0.0, ax.y) if name.startswith("equilibrium") else got[q](0.0) for q in range(7)]
+        except Exception as e:
+            bad.append({"entry_point": name, "tcx_donor_charge": dq, "error": repr(e)[:150]}); continue
+        want = [float(np.asarray(base[b][q]).ravel()[0]) for q in range(7)]
+        if not close(vals, want, 2e-3 if name.startswith("equilibrium") else 1e-6):   # the axis point of the equilibrium has psi_n ~ 1e-5, not exactly 0
+            bad.append({"entry_point": name, "tcx_donor_charge": dq, "at": "psi_n = 0 (first profile point)", "charge_state_values": vals[3:7], "same_arguments_through_%%s" %% b: want[3:7]})
+print(json.dumps({"cases": cases, "bad": bad[:4], "nbad": len(bad)}))
+'''
+        out = run_native(ctx, code, timeout=600)
+        return {'confirmed': bool(out) and bool(out.get('nbad')), 'observed': out, 'input': out['bad'][0] if out and out.get('bad') else None,
+                'expected': 'the same charge-state values as the wrapped entry point called with the same arguments'}
     if 'get_rates' in o.name or 'rates/' in o.name:
         # the rate dictionaries must come from the atomic data source that is passed in - also when sources are created, used and dropped one
         # after the other in one process (a later source may get the memory address of an earlier one)
@@ -396,3 +446,95 @@ print(json.dumps({"cases": cases, "bad": bad[:6]}))
 
 
 BOUNDED = [bounded_entry_points]
+
+
+# ------------------------------------------------------------------------------------------------ argument forwarding of the wrappers
+def _binder(file, callee):
+    """Custom external for a wrapped entry point: binds the call to the REAL signature of `callee` (positional or keyword, defaults filled
+    in from the def) and logs one event `fwd:<callee>` whose keyword map is {parameter: value}; the result is an opaque mapping."""
+    def fn(eng, st, fr, recv, args, kwargs):
+        from pyvc.values import Event, Unsupported
+        d = eng.tree.find_func(file, callee)
+        a = d.args
+        names = [x.arg for x in a.args]
+        bound = {}
+        if len(args) > len(names):
+            raise Unsupported('too many positional arguments for %s' % callee)
+        for nm, v in zip(names, args):
+            bound[nm] = v
+        for k, v in kwargs.items():
+            if k in bound or (k not in names and k not in [x.arg for x in a.kwonlyargs]):
+                raise Unsupported('bad keyword %s for %s' % (k, callee))
+            bound[k] = v
+        defaults = dict(zip(names[len(names) - len(a.defaults):], a.defaults))
+        for x, dflt in zip(a.kwonlyargs, a.kw_defaults):
+            if dflt is not None:
+                defaults[x.arg] = dflt
+        for nm, dn in defaults.items():
+            if nm not in bound:
+                bound[nm] = eng.ev(dn, st, fr)
+        res = eng.new_obj(st, 'dict', None, None, 0, name='profiles')
+        st.log.append(Event('fwd:' + callee, None, (), bound, res))
+        return res
+    return fn
+
+
+def forwarded(callee, mapping):
+    """Ensures-clause: exactly one call of `callee`, and each of its parameters named in `mapping` receives the wrapper's own argument."""
+    def clause(P):
+        evs = [e for e in P.st.log if e.label == 'fwd:' + callee]
+        out = [('forwarding.%s.one_call' % callee, z3.BoolVal(len(evs) == 1))]
+        if len(evs) != 1:
+            return out
+        for param, text in mapping.items():
+            if param not in evs[0].kwargs:
+                out.append(('forwarding.%s.%s' % (callee, param), z3.BoolVal(False)))
+                continue
+            out.append(('forwarding.%s.%s' % (callee, param), as_bool(P.eng.equal(evs[0].kwargs[param], P.value(text), P.st, P.frame))))
+        return out
+    return clause
+
+
+ALIASES = {"n_e": ["n_e", "n_e_profile"], "t_e": ["t_e", "t_e_profile"], "element_density": ["element_density", "n_element"],
+           "n_species": ["n_species", "species_density"], "free_variable": ["free_variable", "psin_1d"]}
+WRAPPERS = [("interpolators1d_fractional", "fractional_abundance"), ("interpolators2d_fractional", "fractional_abundance"),
+            ("interpolators1d_from_elementdensity", "from_elementdensity"), ("interpolators2d_from_elementdensity", "from_elementdensity"),
+            ("interpolators1d_match_plasma_neutrality", "match_plasma_neutrality"), ("interpolators2d_match_plasma_neutrality", "match_plasma_neutrality"),
+            ("equilibrium_map3d_fractional", "interpolators1d_fractional"), ("equilibrium_map3d_from_elementdensity", "interpolators1d_from_elementdensity"),
+            ("equilibrium_map3d_match_plasma_neutrality", "match_plasma_neutrality")]
+
+
+def register_forwarding(reg, tree):
+    """Every entry point that only re-packages another one hands ALL its physical arguments through - in particular the thermal-CX donor,
+    its density and its CHARGE (statement: 'all entry points agree ... with or without a CX donor').  The call is bound to the callee's real
+    signature, so positional / keyword spelling does not matter."""
+    def params(name):
+        a = tree.find_func(F, name).args
+        return [x.arg for x in a.args] + [x.arg for x in a.kwonlyargs]
+    for wrapper, callee in WRAPPERS:
+        wp, cp = params(wrapper), params(callee)
+        mapping = {}
+        for q in cp:
+            src = next((c for c in ALIASES.get(q, [q]) if c in wp), None)
+            if src is not None:
+                mapping[q] = src
+        reg.contract(F, wrapper, PROP, name='forwarding',
+            sorts=dict({k: "ref" for k in wp}, tcx_donor_charge="int"),
+            externals={callee: {'kind': 'custom', 'override': True, 'fn': _binder(F, callee), 'doc': '%s (verified separately): call bound to its real signature' % callee},
+                       '.items': {'kind': 'pure', 'result': 'seq:ref', 'doc': 'dict.items()'},
+                       '.map3d': {'kind': 'pure', 'result': 'ref', 'doc': 'EFITEquilibrium.map3d'},
+                       'Interpolator1DArray()': {'kind': 'pure', 'result': 'ref', 'doc': 'raysect interpolator'},
+                       'Interpolator2DArray()': {'kind': 'pure', 'result': 'ref', 'doc': 'raysect interpolator'}},
+            flags={'stmts_before_loop': True},
+            ensures=[("arguments_forwarded", forwarded(callee, mapping))],
+            note='%s -> %s: %s' % (wrapper, callee, mapping))
+
+
+_register_solver = register
+
+
+def register(reg, ctx=None):
+    _register_solver(reg)
+    from pyvc.source import SourceTree
+    tree = ctx['tree'] if ctx else SourceTree('/repo')
+    register_forwarding(reg, tree)
